@@ -49,15 +49,15 @@ Definition sums_of (nacc : nat) (rs : list bar) : list f64 :=
   fold_left (fun s r => add_sums s (b_acc r)) rs (repeat f64_zero nacc).
 
 Definition in_window (cd : cdur) (w : Z) (rs : list bar) : Prop :=
-  truncate cd w = w /\ forall r, In r rs -> truncate cd (b_t r) = w /\ b_t r <> zero_time.
+  idem cd /\ truncate cd w = w /\ forall r, In r rs -> truncate cd (b_t r) = w /\ b_t r <> zero_time.
 
-Lemma within_of_window cd w r : truncate cd (b_t r) = w -> is_within cd (b_t r) w = true.
-Proof. intros E. rewrite <- E. apply is_within_truncate. Qed.
+Lemma within_of_window cd w r : idem cd -> truncate cd (b_t r) = w -> is_within cd (b_t r) w = true.
+Proof. intros Hid E. rewrite <- E. apply is_within_truncate, Hid. Qed.
 
 Lemma ot_step_nonzero s r : fst s <> zero_time -> b_t r <> zero_time -> fst (ot_step s r) <> zero_time.
 Proof. unfold ot_step. destruct (b_t r <? fst s); cbn [fst]; auto. Qed.
 
-Lemma fold_next cd w rs : forall c,
+Lemma fold_next cd w rs : idem cd -> forall c,
   c_start c = w -> c_ot c <> zero_time ->
   (forall r, In r rs -> truncate cd (b_t r) = w /\ b_t r <> zero_time) ->
   0 <= c_n c -> c_n c + Z.of_nat (length rs) <= ity_max I64 ->
@@ -70,10 +70,10 @@ Lemma fold_next cd w rs : forall c,
   /\ c_sums c' = fold_left (fun s r => add_sums s (b_acc r)) rs (c_sums c)
   /\ c_n c' = c_n c + Z.of_nat (length rs).
 Proof.
-  induction rs as [|r rs IH]; intros c S Z0 Hin N0 Nb; cbv zeta; cbn [fold_left map length].
+  intros Hid. induction rs as [|r rs IH]; intros c S Z0 Hin N0 Nb; cbv zeta; cbn [fold_left map length].
   - repeat split; try reflexivity; cbn [length]; lia.
   - destruct (Hin r (or_introl eq_refl)) as [Tr Zr].
-    assert (W : is_within cd (b_t r) (c_start c) = true) by (rewrite S; apply within_of_window; exact Tr).
+    assert (W : is_within cd (b_t r) (c_start c) = true) by (rewrite S; apply within_of_window; [exact Hid | exact Tr]).
     destruct (add_candle_next cd c r W Z0) as (A1 & A2 & A3 & A4 & A5 & A6 & A7).
     set (c1 := add_bar cd c r).
     assert (B1 : c_start c1 = w) by (unfold c1; rewrite add_bar_start; exact S).
@@ -105,16 +105,16 @@ Theorem window_fold cd nacc w r0 rest : in_window cd w (r0 :: rest) ->
   /\ c_sums c = sums_of nacc (r0 :: rest)
   /\ c_n c = Z.of_nat (length (r0 :: rest)).
 Proof.
-  intros [Tw Hin] Nb. cbv zeta. cbn [fold_left].
+  intros (Hid & Tw & Hin) Nb. cbv zeta. cbn [fold_left].
   destruct (Hin r0 (or_introl eq_refl)) as [T0 Z0].
   assert (F : add_bar cd (new_candle cd nacc w) r0
               = {| c_start := w; c_o := b_o r0; c_h := b_h r0; c_l := b_l r0; c_c := b_c r0; c_ot := b_t r0; c_ct := b_t r0;
                    c_sums := add_sums (repeat f64_zero nacc) (b_acc r0); c_n := 1 |}).
-  { unfold add_bar. rewrite (add_candle_first cd nacc w r0 Tw (within_of_window cd w r0 T0)).
+  { unfold add_bar. rewrite (add_candle_first cd nacc w r0 Tw (within_of_window cd w r0 Hid T0)).
     cbn [c_start c_ot c_ct c_h c_l c_o c_c c_sums c_n]. reflexivity. }
   rewrite F. cbn [length] in Nb.
   match goal with |- context [fold_left (add_bar cd) rest ?c0] => set (c1 := c0) end.
-  destruct (fold_next cd w rest c1) as (I1 & I2 & I3 & I4 & I5 & I6 & I7);
+  destruct (fold_next cd w rest Hid c1) as (I1 & I2 & I3 & I4 & I5 & I6 & I7);
     try reflexivity; try (unfold c1; cbn [c_ot c_n]; try exact Z0; lia).
   - intros r I. apply Hin. right. exact I.
   - unfold c1 in *. cbn [c_start c_ot c_ct c_h c_l c_o c_c c_sums c_n] in *.
@@ -271,10 +271,10 @@ Proof.
   apply filter_In in I. apply H. rewrite <- E. apply in_map. apply I.
 Qed.
 
-Lemma in_window_rows cd w rows : truncate cd w = w -> (forall r, In r rows -> b_t r <> zero_time) ->
+Lemma in_window_rows cd w rows : idem cd -> truncate cd w = w -> (forall r, In r rows -> b_t r <> zero_time) ->
   in_window cd w (window_rows cd w rows).
 Proof.
-  intros Tw Z. split; [exact Tw|]. intros r I. apply filter_In in I. destruct I as [I E]. apply Z.eqb_eq in E. auto.
+  intros Hid Tw Z. split; [exact Hid|]. split; [exact Tw|]. intros r I. apply filter_In in I. destruct I as [I E]. apply Z.eqb_eq in E. auto.
 Qed.
 
 Definition rows_ok (rows : list bar) : Prop :=
@@ -284,30 +284,30 @@ Lemma filter_length_le {A} (f : A -> bool) l : (length (filter f l) <= length l)
 Proof. induction l as [|a l IH]; cbn [filter length]; [lia|]. destruct (f a); cbn [length]; lia. Qed.
 
 (** every window's candle meets the specification *)
-Theorem window_candle_meets_spec cd nacc rows w : rows_ok rows ->
+Theorem window_candle_meets_spec cd nacc rows w : idem cd -> rows_ok rows ->
   (exists r, In r rows /\ truncate cd (b_t r) = w) ->
   candle_spec (window_candle cd nacc w rows) w (window_rows cd w rows)
   /\ c_sums (window_candle cd nacc w rows) = sums_of nacc (window_rows cd w rows).
 Proof.
-  intros [Z N] Ex. unfold window_candle. apply window_candle_spec.
+  intros Hid [Z N] Ex. unfold window_candle. apply window_candle_spec.
   - apply window_rows_nil_iff. exact Ex.
-  - apply in_window_rows; [|exact Z]. destruct Ex as (r & _ & E). rewrite <- E. apply truncate_idem.
+  - apply in_window_rows; [exact Hid | | exact Z]. destruct Ex as (r & _ & E). rewrite <- E. apply truncate_idem, Hid.
   - pose proof (filter_length_le (fun r => truncate cd (b_t r) =? w) rows). unfold window_rows. lia.
 Qed.
 
 (** C21's order independence, per window *)
-Theorem ohlc_order_independent cd nacc rows rows' w : Permutation rows rows' -> rows_ok rows ->
+Theorem ohlc_order_independent cd nacc rows rows' w : idem cd -> Permutation rows rows' -> rows_ok rows ->
   NoDup (map b_t rows) -> f32_nonan (map b_h rows) = true -> f32_nonan (map b_l rows) = true ->
   (exists r, In r rows /\ truncate cd (b_t r) = w) ->
   ohlc_eq (window_candle cd nacc w rows) (window_candle cd nacc w rows').
 Proof.
-  intros P OK N Hh Hl Ex.
+  intros Hid P OK N Hh Hl Ex.
   assert (OK' : rows_ok rows').
   { destruct OK as [Z L]. split; [intros r I; apply Z, (Permutation_in _ (Permutation_sym P) I) | rewrite <- (Permutation_length P); exact L]. }
   assert (Ex' : exists r, In r rows' /\ truncate cd (b_t r) = w).
   { destruct Ex as (r & I & E). exists r. split; [apply (Permutation_in _ P I) | exact E]. }
-  destruct (window_candle_meets_spec cd nacc rows w OK Ex) as [S _].
-  destruct (window_candle_meets_spec cd nacc rows' w OK' Ex') as [S' _].
+  destruct (window_candle_meets_spec cd nacc rows w Hid OK Ex) as [S _].
+  destruct (window_candle_meets_spec cd nacc rows' w Hid OK' Ex') as [S' _].
   apply (spec_determines_ohlc _ _ w (window_rows cd w rows) (window_rows cd w rows')); auto.
   - apply filter_perm, P.
   - apply NoDup_map_filter, N.
